@@ -157,6 +157,9 @@ static uint32_t deserialize_value_at_depth(const uint8_t *buf, uint32_t buf_size
         uint32_t count;
         memcpy(&count, buf + pos, 4);
         pos += 4;
+        /* every element occupies at least one byte: a larger count cannot be satisfied
+         * (and must not size the allocation below) */
+        if (count > buf_size - pos) { *out = val_void(); return 0; }
         VmArray *arr = vm_array_new(heap, etype, count > 0 ? count : 4);
         for (uint32_t i = 0; i < count; i++) {
             NanoValue elem;
